@@ -229,6 +229,7 @@ func runSched(run *spec.Run) (res spec.Result) {
 		res.Switches = append(res.Switches, spec.Sw{From: s.From, At: s.AtStep, Site: s.Site, To: s.To})
 	}
 	res.TotalSteps = verifrt.Total
+	res.BlockedYields = verifrt.BlockedYields
 	return
 }
 
